@@ -528,6 +528,7 @@ def diff(a, b):
 
 def part_b(ctx, nbases, nvariants):
     bad_bases = 0
+    pending = ["multiline-comment-in-define", "continuation-before-macro-name", "comment-on-line-directive-line"] * 2
     for bi in range(nbases):
         items = gen_items(ctx.rng)
         base = render_plain(items)
@@ -540,11 +541,12 @@ def part_b(ctx, nbases, nvariants):
         has_define = any(it["kind"] == "define" for it in items)
         for vi in range(nvariants):
             force = None
-            if vi == 0 and bi < 6:
-                force = ["multiline-comment-in-define", "continuation-before-macro-name",
-                         "comment-on-line-directive-line"][bi % 3]
-                if force != "comment-on-line-directive-line" and not has_define:
-                    force = None
+            if vi == 0:
+                for cand in pending:        # each known finding class is hit deliberately, twice per run
+                    if cand == "comment-on-line-directive-line" or has_define:
+                        force = cand
+                        pending.remove(cand)
+                        break
             text, stats, tags = decorate(ctx.rng, items, force)
             case = {"part": "B", "base": base, "variant": text, "tags": sorted(tags)}
             nontrivial = bool(stats - {"ws"}) or bool(tags)
